@@ -1,0 +1,10 @@
+//go:build !verif
+
+package revocation
+
+import "github.com/privacybydesign/gabi/big"
+
+// Disabled verification trace points (see hook_verif.go); empty functions.
+func verifTraceRemove(acc, newAcc *Accumulator, e *big.Int) {}
+func verifTraceWitness(acc *Accumulator, e *big.Int)        {}
+func verifTraceUpdate(w *Witness, update *Update) func()    { return func() {} }
